@@ -1118,11 +1118,14 @@ def do_forward_open_reply(large, oid, tid, serial, vendor, oserial, oapi, tapi, 
             and f.O_T.API == oapi and f.T_O.API == tapi and f.application.size == len(padded) // 2 and list(f.application.data) == padded)
 
 
-define(globals(), 'C01', 'forward_open_reply_success', [('large', 'bool'), 'oid', 'tid', 'serial', 'vendor', 'oserial', 'oapi', 'tapi', 'n', 'a0', 'a1', 'a2'],
-       "return do_forward_open_reply(large, oid, tid, serial, vendor, oserial, oapi, tapi, n, a0, a1, a2)",
-       [inr(['oid', 'tid', 'oserial', 'oapi', 'tapi'], 0, 0xFFFFFFFF), inr(['serial', 'vendor'], 0, 0xFFFF), '0 <= n <= 3', inr(['a0', 'a1', 'a2'])],
-       timeout=1800, path_timeout=300, drives=FO_DRIVES,
-       bounds='successful (Large) Forward Open reply: ids, serials, APIs symbolic; application data of 0..3 arbitrary bytes (odd length padded to words)', outside='')
+for _n in (0, 1, 2, 3):
+    for _large in (False, True):
+        define(globals(), 'C01', 'forward_open_reply_success_%s_app%d' % ('large' if _large else 'small', _n), ['oid', 'tid', 'serial', 'vendor', 'oserial', 'oapi', 'tapi', 'a0', 'a1', 'a2'],
+               "return do_forward_open_reply(%r, oid, tid, serial, vendor, oserial, oapi, tapi, %d, a0, a1, a2)" % (_large, _n),
+               [inr(['oid', 'tid', 'oserial', 'oapi', 'tapi'], 0, 0xFFFFFFFF), inr(['serial', 'vendor'], 0, 0xFFFF), inr(['a0', 'a1', 'a2'])],
+               tier='quick' if (_large, _n) in ((False, 0), (True, 3), (False, 1)) else 'thorough', timeout=1800, path_timeout=300, drives=FO_DRIVES,
+               bounds='successful %s Forward Open reply: ids, serials, APIs symbolic; application data of %d arbitrary byte(s) (odd length padded to words)' % (
+                   'Large' if _large else 'Small', _n), outside='')
 
 
 def do_forward_open_failure(large, status, ext, serial, vendor, oserial, remaining, has_remaining):
